@@ -71,9 +71,26 @@ def table_case(ctx, rng, pending, numkeys):
     if not rows:
         rep.case('sort:' + kind, case, nontrivial=False)
         return
+    # the table may be one resource among others, selected by position, by a list or by its (escaped) name; its name need not
+    # be a pattern that matches itself
+    how = rng.choice([None, None, 'int', 'negative-int', 'list', 'name'])
+    case['selected_as'] = how
     try:
         with quiet():
-            out = Flow(data, DF.sort_rows(key, reverse=reverse, batch_size=bs)).results(on_error=None)[0][0]
+            if how is None:
+                out = Flow(data, DF.sort_rows(key, reverse=reverse, batch_size=bs)).results(on_error=None)[0][0]
+            else:
+                import re as _re
+                nm = rng.choice(['q+', 'a(1)', 'data', 'a.b', 'x|y'])
+                case['resource_name'] = nm
+                other = [{'id': 3}, {'id': 1}, {'id': 2}]
+                sel = {'int': 1, 'negative-int': -1, 'list': [nm], 'name': _re.escape(nm)}[how]
+                res = Flow(copy.deepcopy(other), data, DF.update_resource(0, name='other', path='other.csv'),
+                           DF.update_resource(1, name=nm, path='data.csv'),
+                           DF.sort_rows(key, resources=sel, reverse=reverse, batch_size=bs)).results(on_error=None)[0]
+                out = res[1]
+                if [r['id'] for r in res[0]] != [3, 1, 2]:
+                    rep.fail('unselected-resource-reordered', case, {'got': [r['id'] for r in res[0]]})
     except Exception as e:  # noqa
         rep.case('sort:' + kind, case, nontrivial=False)
         rep.fail('sort-raises', case, repr(e)[:300])
